@@ -258,11 +258,20 @@ func (t *Transaction) rowsFromTransactionCacheAndDatabase(table string, where []
 // - no duplicate indexes of any transaction row with any database row
 func (t *Transaction) checkIndexes() error {
 	// check for index conflicts.
+	// The indexes of the transaction cache cannot be relied upon to find
+	// duplicates among the rows of the transaction: they were maintained
+	// without checks while the operations were applied, and transient
+	// duplicates overwrite each other's entries. Index the final rows of the
+	// transaction anew, with checks.
+	final, err := cache.NewTableCache(t.Model, nil, t.logger)
+	if err != nil {
+		return err
+	}
 	tables := t.Cache.Tables()
 	for _, table := range tables {
 		tc := t.Cache.Table(table)
-		for _, row := range tc.RowsShallow() {
-			err := tc.IndexExists(row)
+		for uuid, row := range tc.RowsShallow() {
+			err := final.Table(table).Create(uuid, row, true)
 			if err != nil {
 				return err
 			}
